@@ -19,6 +19,7 @@ type Clause struct {
 
 type LoopContract struct {
 	Invariants []Clause
+	Continues  []Clause
 	Decreases  *Clause
 }
 
@@ -97,7 +98,7 @@ func newDB() *ContractDB {
 	return &ContractDB{funcs: map[string]*FuncContract{}, specs: map[string]*SpecFunc{}}
 }
 
-var clauseRe = regexp.MustCompile(`^(requires|ensures|invariant|site|lemma|axiom)(\[([A-Za-z0-9_\-.]+)\])?\s*(.*)$`)
+var clauseRe = regexp.MustCompile(`^(requires|ensures|invariant|continue|site|lemma|axiom)(\[([A-Za-z0-9_\-.]+)\])?\s*(.*)$`)
 
 func (db *ContractDB) loadDir(dir, pkgPath string) error {
 	files, _ := filepath.Glob(filepath.Join(dir, "zz_verif_contracts*.go"))
@@ -459,6 +460,20 @@ func (db *ContractDB) loadFile(file, pkgPath string) (err error) {
 					cur.Loops[n] = lc
 				}
 				m := clauseRe.FindStringSubmatch(strings.TrimSpace(fs[1]))
+				if m != nil && m[1] == "continue" {
+					// loop <n> continue[name] expr: must hold whenever the body jumps
+					// back to the loop header (not assumed at the header)
+					e, err := parseExpr(m[4])
+					if err != nil {
+						return fail("%v", err)
+					}
+					name := m[3]
+					if name == "" {
+						name = fmt.Sprintf("cont%d", len(lc.Continues))
+					}
+					lc.Continues = append(lc.Continues, Clause{Name: name, Src: m[4], E: e, Line: where})
+					break
+				}
 				if m == nil || m[1] != "invariant" {
 					if strings.HasPrefix(strings.TrimSpace(fs[1]), "decreases ") {
 						src := strings.TrimSpace(strings.TrimSpace(fs[1])[10:])
